@@ -82,7 +82,7 @@ _UB_KINDS = [(r"division by zero", "division-by-zero"), (r"reference binding to 
              (r"downcast of address", "bad-downcast"), (r"applying (non-)?zero offset", "pointer-overflow"), (r"pointer index expression", "pointer-overflow")]
 
 
-def classify(stderr_text, how):
+def classify(stderr_text, how, target="unknown", text=b""):
     """stable key for a killed input: kind of report + innermost STIR function on the stack"""
     kind = None
     m = re.search(r"ERROR: AddressSanitizer: ([a-zA-Z0-9_-]+)", stderr_text)
@@ -115,6 +115,12 @@ def classify(stderr_text, how):
             name = re.sub(r"<[^<>]*>", "", name)
             func = name.replace(" ", "")
             break
+    if func == "unknown-function":
+        t = text[:-1] if text.endswith(b"\r") else text
+        if t.endswith(b"\\") and kind in ("timeout", "asan-allocation-size-too-big", "asan-out-of-memory"):
+            # read_line() appending the last line to itself for ever (same defect as reported by part 1)
+            return "keyparser:continuation-backslash-at-eof"
+        func = "target-" + target
     return "%s:%s" % (kind, func)
 
 
@@ -162,7 +168,8 @@ def run_fuzz(chk, tier):
             per_target[target] = per_target.get(target, 0) + 1
             verdicts["killed"] = verdicts.get("killed", 0) + 1
             err = open(stderrfile, errors="replace").read() if os.path.exists(stderrfile) else ""
-            killed_by_key.setdefault(classify(err, how), []).append((target, inputfile, err))
+            text = open(inputfile, "rb").read() if os.path.exists(inputfile) else b""
+            killed_by_key.setdefault(classify(err, how, target, text), []).append((target, inputfile, err))
         elif t[0] == "DONE":
             done = l.strip()
     if done is None:
@@ -199,7 +206,12 @@ def replay_fuzz(chk, replay):
     os.makedirs(work, exist_ok=True)
     inp = os.path.join(work, "input.txt")
     open(inp, "wb").write(data)
-    r = vlib.sh([exe, "one", target, work, inp], env=fuzz_env(), timeout=300)
+    rr = subprocess.run([exe, "one", target, work, inp], env=fuzz_env(), timeout=300, stdout=subprocess.PIPE, stderr=subprocess.STDOUT)
+
+    class R:
+        returncode = rr.returncode
+        stdout = rr.stdout.decode(errors="replace")
+    r = R
     print("replay: target=%s input=%d bytes exit=%d %s" % (target, len(data), r.returncode,
                                                             " ".join([l for l in r.stdout.splitlines() if l.startswith("VERDICT")][-1:])))
     if r.returncode == 3:
@@ -207,7 +219,7 @@ def replay_fuzz(chk, replay):
         key = "inconsistent:%s:%s" % (target, re.sub(r"[^a-zA-Z]+", "-", re.sub(r"\d+", "N", msg.split(" ", 1)[1])).strip("-")[:80])
         chk.violation(key, "replay: " + msg, open(replay).read())
     elif r.returncode != 0:
-        key = classify(r.stdout, "exit%d" % r.returncode)
+        key = classify(r.stdout, "exit%d" % r.returncode, target, data)
         chk.violation(key, "replay: %s: %s" % (key, " ".join(report_tail(r.stdout).split())[:260]), open(replay).read())
     chk.coverage.update(dict(evaluations=1, distinct_nontrivial=1, rule="replay of one fuzz input", samples=[target]))
 
@@ -233,7 +245,11 @@ def main(tier, replay):
     cf = os.path.join(vlib.OUT, "c17_%s.impl.classes" % tier)
     if os.path.exists(cf):
         classes = [l.rstrip("\n") for l in open(cf)]
-    fuzz = run_fuzz(chk, tier)
+    if os.environ.get("C17_SKIP_FUZZ") == "1":     # development only: part 1 alone (recorded in the evidence)
+        fuzz = dict(fuzz_skipped=True)
+        chk.assumptions.append("DEVELOPMENT RUN: the sanitizer part (part 2) was skipped (C17_SKIP_FUZZ=1)")
+    else:
+        fuzz = run_fuzz(chk, tier)
     vlib.standard_coverage(chk, stats,
         "Part 1: real KeyParser (get_keyword, standardise_keyword, add_key/add_vectorised_key/add_alias_key, parse, parameter_info) against the Lean model, "
         "one line per operation: keywords/lines of Interfile headers written by the library and of parameter_info() of every constructible "
